@@ -37,6 +37,8 @@ func c01Classify(x *c01Ctx, d *c01Div) string {
 		return "minify-empty-block-printed-as-word"
 	case c01RedirBeforeFuncDecl(x, d):
 		return "zsh-redirect-before-funcdecl-moves-into-body"
+	case c01ZshMinifyShortForm(x, d):
+		return "zsh-minify-short-form-absorbs-continuation"
 	}
 	return ""
 }
@@ -129,9 +131,16 @@ func c01CoprocFirstWord(x *c01Ctx, d *c01Div) bool {
 			}
 		}
 		if d.Kind == "tree" && (d.Node == syntax.Node(cc.Stmt) || d.Node == syntax.Node(ce)) && len(ce.Assigns) == 0 {
-			// the text up to the "=" is always within the word's first literal
-			first, _ := ce.Args[0].Parts[0].(*syntax.Lit)
-			if first != nil && c01AssignShape.MatchString(first.Value) || c01ClauseWords[ce.Args[0].Lit()] {
+			// the text up to the "=" is within the word's leading literals
+			prefix := ""
+			for _, wp := range ce.Args[0].Parts {
+				lit, ok := wp.(*syntax.Lit)
+				if !ok {
+					break
+				}
+				prefix += lit.Value
+			}
+			if c01AssignShape.MatchString(prefix) || c01ClauseWords[ce.Args[0].Lit()] {
 				found = true
 				return false
 			}
@@ -375,4 +384,67 @@ func c01RedirBeforeFuncDecl(x *c01Ctx, d *c01Div) bool {
 		return !found
 	})
 	return found
+}
+
+// --- zsh, Minify: ${x} shortened in front of text the short form absorbs -----
+//
+// Printer defect: Minify rewrites ${x} to $x unless the next literal could
+// continue the name. In zsh the short form also takes a following subscript
+// ("$x[1]" is ${x[1]}) and "$#" followed by the start of a parameter is a
+// length ("$#1" is ${#1}, "$#@" is ${#@}, also $#$x and $#"a"), so "echo
+// ${x}[1]" -> "echo $x[1]" and "echo ${#}1" -> "echo $#1" change the tree
+// ("echo ${x}[" -> "echo $x[" does not even parse).
+//
+// Predicate: variant zsh; Minify set; the printed node has a word in which a
+// ${..} is directly followed by a part whose text starts with "[", or ${#} by
+// a part whose text starts with a name character, a digit or one of @ * # !
+// $ ? - "; without Minify the same configuration round trips.
+func c01ZshMinifyShortForm(x *c01Ctx, d *c01Div) bool {
+	if x.lang != syntax.LangZsh || !d.Cfg.Minify {
+		return false
+	}
+	found := false
+	parts := func(ps []syntax.WordPart) {
+		for i := 0; i+1 < len(ps); i++ {
+			pe, ok := ps[i].(*syntax.ParamExp)
+			if !ok || pe.Short || pe.Param == nil {
+				continue
+			}
+			// first byte of the printed form of the next part
+			var c byte
+			switch next := ps[i+1].(type) {
+			case *syntax.Lit:
+				if next.Value != "" {
+					c = next.Value[0]
+				}
+			case *syntax.ParamExp, *syntax.CmdSubst, *syntax.ArithmExp:
+				c = '$'
+			case *syntax.DblQuoted:
+				c = '"'
+			case *syntax.SglQuoted:
+				if next.Dollar {
+					c = '$'
+				}
+			}
+			nameRune := c == '_' || c >= '0' && c <= '9' || c >= 'a' && c <= 'z' || c >= 'A' && c <= 'Z'
+			if c == '[' || pe.Param.Value == "#" && (nameRune || c != 0 && strings.IndexByte("@*#!$?-\"", c) >= 0) {
+				found = true
+			}
+		}
+	}
+	syntax.Walk(d.Node, func(n syntax.Node) bool {
+		switch n := n.(type) {
+		case *syntax.Word:
+			parts(n.Parts)
+		case *syntax.DblQuoted:
+			parts(n.Parts)
+		}
+		return !found
+	})
+	if !found {
+		return false
+	}
+	cfg := d.Cfg
+	cfg.Minify = false
+	return x.counterfactual(d, cfg, nil)
 }
